@@ -1372,12 +1372,20 @@ func Run(c *hx.Ctx) error {
 	if v := c.Arg("tuples", ""); v != "" {
 		n, _ = strconv.Atoi(v)
 	}
-	c.Stats.Rule = "a tuple case is non-trivial when ExpiredShards reports at least one and keeps at least one of its candidates (every IsExpired tuple counts); a trace is non-trivial when some run deletes a shard from the store while another shard that is not expired under the refreshed duration stays"
+	c.Stats.Rule = "a tuple case is non-trivial when ExpiredShards reports at least one and keeps at least one of its candidates (every IsExpired tuple counts); a trace is non-trivial when some run deletes a shard from the store while another shard that is not expired under the refreshed duration stays; an index history (x) is non-trivial when some run deletes an index builder from the store while another index builder or a shard that is not expired stays"
 	r := hx.NewRng(c.Seed)
 	if err := runTuples(c, root, r.Fork(), n); err != nil {
 		return err
 	}
 	if err := runTraces(c, root, r.Fork(), traces); err != nil {
+		return err
+	}
+	// index side (index.go): histories over shards + their index builders + index groups
+	xtraces := n / 4
+	if v := c.Arg("xtraces", ""); v != "" {
+		xtraces, _ = strconv.Atoi(v)
+	}
+	if err := runX(c, root, r.Fork(), xtraces); err != nil {
 		return err
 	}
 	c.Stats.Notes = append(c.Stats.Notes,
